@@ -6,6 +6,7 @@ import (
 	"fmt"
 	"io"
 	"net"
+	"slices"
 	"time"
 
 	"github.com/quic-go/quic-go"
@@ -295,9 +296,11 @@ func (s *Server) handleRPCFreeSectors(stream net.Conn) error {
 
 	oldSubtreeHashes, oldLeafHashes := rhp4.BuildFreeSectorsProof(state.Roots, req.Indices)
 
-	// modify the sector roots
+	// modify a copy of the sector roots: the slice returned by the contractor
+	// must stay untouched until the renter has signed the revision
 	//
 	// NOTE: must match the behavior of BuildFreeSectorsProof
+	state.Roots = slices.Clone(state.Roots)
 	for i, n := range req.Indices {
 		state.Roots[n] = state.Roots[len(state.Roots)-i-1]
 	}
